@@ -1,11 +1,17 @@
 #!/bin/bash
-# build the harness from /repo's current working tree (offline); prints only errors
+# build the harness from /repo's current working tree (offline), in both profiles:
+#   release = "checked" (overflow checks + debug assertions on; the deciding runs, the fuzz layer)
+#   plain   = optimised, wrapping arithmetic, debug assertions off (second run of every check)
+# prints only errors
 cd /verif/harness || exit 2
 export CARGO_NET_OFFLINE=true
-out=$(cargo build --release --message-format=short 2>&1)
-rc=$?
-if [ $rc -ne 0 ]; then
-  echo "$out" | grep -E "error" | head -${BUILD_ERR_LINES:-60}
-  echo "$out" | tail -3
-fi
-exit $rc
+for prof in "--release" "--profile plain"; do
+  out=$(cargo build $prof --message-format=short 2>&1)
+  rc=$?
+  if [ $rc -ne 0 ]; then
+    echo "$out" | grep -E "error" | head -${BUILD_ERR_LINES:-60}
+    echo "$out" | tail -3
+    exit $rc
+  fi
+done
+exit 0
